@@ -71,6 +71,7 @@ pub fn all() -> Vec<Prop> {
 pub fn helper_main(args: &[String]) -> i32 {
     match args.first().map(|s| s.as_str()) {
 <<<<<<< HEAD
+<<<<<<< HEAD
         Some("fault-save") => crate::gen::faultsave::helper_fault_save(&args[1..]),
 =======
         // C14/C15: vectors of the reference hash iterations, compared with Python hashlib
@@ -86,6 +87,9 @@ pub fn helper_main(args: &[String]) -> i32 {
             0
         }
 >>>>>>> ag-crypto
+=======
+        Some("numcsv-selftest") => crate::model::selftest_numcsv::main(&args[1..]),
+>>>>>>> ag-numcsv
         _ => {
             eprintln!("unknown helper {:?}", args);
             2
